@@ -488,7 +488,19 @@ func stdIntrinsics(e *Engine) map[string]intrinsic {
 			}
 			return tupleOf(FP64(f), iface{})
 		}
-		panic(unsupported{"strconv.ParseFloat on symbolic string"})
+		// Symbolic subject: syntactic model. Acceptance is decided exactly (for inputs
+		// without digit-separating underscores) by matching Go's floating-point
+		// literal syntax; the parsed value is an unconstrained fresh float.
+		p.eng.noteStub("strconv.ParseFloat (syntactic model, value unconstrained)")
+		ro, err := p.compileRe(goFloatSyntax, false)
+		if err != nil {
+			panic(unsupported{"ParseFloat syntax model: " + err.Error()})
+		}
+		ok := p.matchTerm(ro.prog, p.runesOf(args[0]))
+		if p.decide(ok, "ParseFloat syntax") {
+			return tupleOf(p.symScalar("parsefloat", "float64", fpSort(64)), iface{})
+		}
+		return tupleOf(FP64(0), p.numError("ParseFloat", "?", strconv.ErrSyntax.Error()))
 	}
 	m["strconv.FormatFloat"] = func(p *Path, fr *frame, args []value) value {
 		f := args[0].(*Term)
@@ -639,6 +651,7 @@ func stdIntrinsics(e *Engine) map[string]intrinsic {
 
 	addFmt(e, m)
 	addRegexp(e, m)
+	addStrconv(e, m)
 	addReflect(e, m)
 	addMisc(e, m)
 	return m
@@ -713,7 +726,11 @@ func (p *Path) formatIntSym(t *Term, signed bool) value {
 	if neg {
 		digits = append([]*Term{byteConst('-')}, digits...)
 	}
-	return mkStr(digits)
+	s := mkStr(digits)
+	if ss, ok := s.(*SymStr); ok {
+		ss.dec = &decInfo{x: t, signed: signed}
+	}
+	return s
 }
 
 var _ = fmt.Sprintf
